@@ -156,3 +156,36 @@ fn h15e_cast_signed_unsigned() {
     kani::cover!(x == 239, "239");
     kani::cover!(true, "reaches end");
 }
+
+// @harness h15e_to_bits tier=quick props=C15
+// @bounds none
+// @domain ∀ element of every kind (Float16 excluded: feature off), ∀ payload
+// @claim to_bits() keeps the element: narrowing the u64 back to the element type returns the payload (the form Atomics.compareExchange/store rely on)
+// @stubs std::rt::thread_cleanup→{}
+#[kani::proof]
+#[kani::stub(std::rt::thread_cleanup, noop)]
+fn h15e_to_bits() {
+    let a: i8 = kani::any();
+    let b: u8 = kani::any();
+    let c: i16 = kani::any();
+    let d: u16 = kani::any();
+    let e: i32 = kani::any();
+    let f: u32 = kani::any();
+    let g: i64 = kani::any();
+    let h: u64 = kani::any();
+    assert!(TypedArrayElement::Int8(a).to_bits() as i8 == a, "verif: to_bits keeps the payload");
+    assert!(TypedArrayElement::Uint8(b).to_bits() == b as u64, "verif: to_bits keeps the payload");
+    assert!(TypedArrayElement::Uint8Clamped(ClampedU8(b)).to_bits() == b as u64, "verif: to_bits keeps the payload");
+    assert!(TypedArrayElement::Int16(c).to_bits() as i16 == c, "verif: to_bits keeps the payload");
+    assert!(TypedArrayElement::Uint16(d).to_bits() == d as u64, "verif: to_bits keeps the payload");
+    assert!(TypedArrayElement::Int32(e).to_bits() as i32 == e, "verif: to_bits keeps the payload");
+    assert!(TypedArrayElement::Uint32(f).to_bits() == f as u64, "verif: to_bits keeps the payload");
+    assert!(TypedArrayElement::BigInt64(g).to_bits() as i64 == g, "verif: to_bits keeps the payload");
+    assert!(TypedArrayElement::BigUint64(h).to_bits() == h, "verif: to_bits keeps the payload");
+    assert!(TypedArrayElement::Float32(f32::from_bits(f)).to_bits() == f as u64, "verif: to_bits keeps the payload");
+    assert!(TypedArrayElement::Float64(f64::from_bits(h)).to_bits() == h, "verif: to_bits keeps the payload");
+    // BigInt kinds: cast keeps the 64 bits
+    assert!(TypedArrayElement::BigInt64(g).cast(TypedArrayKind::BigUint64) == TypedArrayElement::BigUint64(g as u64), "verif: BigInt64 → BigUint64 wraps");
+    assert!(TypedArrayElement::BigUint64(h).cast(TypedArrayKind::BigInt64) == TypedArrayElement::BigInt64(h as i64), "verif: BigUint64 → BigInt64 wraps");
+    kani::cover!(true, "reaches end");
+}
